@@ -1068,11 +1068,8 @@ func (w *acWorld) exec(line string) acOutcome {
 	for _, l := range w.order {
 		if !inAuth[l] && before[w.projs[l].id] != after[w.projs[l].id] {
 			victim = "CHANGED"
-			tag := ""
-			if method == "DetachChannel" {
-				tag = "KNOWN[c13-session-global] "
-			}
-			c.Oracle("%svictim project %s changed by: %s -> %s :: %s", tag, l, line, r.code, acFirstDiff(before[w.projs[l].id], after[w.projs[l].id]))
+			// no listed finding changes a victim any more (session scope repaired by /repo 3821028d): always a plain violation
+			c.Oracle("victim project %s changed by: %s -> %s :: %s", l, line, r.code, acFirstDiff(before[w.projs[l].id], after[w.projs[l].id]))
 		}
 	}
 	if svc == "AdminService" && acAdminPublic[method] {
@@ -1213,12 +1210,8 @@ func runAccess(c *Ctx) error {
 				if f, ok := g.prev[k]; ok && f.foreignB {
 					switch {
 					case f.code != o.code && f.code == "ok":
-						tag := ""
-						switch acArg(t, "proc") {
-						case "DetachChannel", "RefreshChannel":
-							tag = "KNOWN[c13-session-global] "
-						}
-						c.Oracle("%sforeign id honoured: %s answered ok but the same request with a nowhere-existing id is %s", tag, strings.Replace(l, "target=g", "target=f", 1), o.code)
+						// no listed finding honours a foreign id any more (ddb0dfd3, 3821028d): always a plain violation
+						c.Oracle("foreign id honoured: %s answered ok but the same request with a nowhere-existing id is %s", strings.Replace(l, "target=g", "target=f", 1), o.code)
 					case f.code != o.code:
 						c.Oracle("existence of a foreign object is observable: %s -> %s, nowhere-existing twin -> %s", strings.Replace(l, "target=g", "target=f", 1), f.code, o.code)
 					case f.norm != o.norm:
